@@ -96,7 +96,8 @@ theorem initRest_spec (s : St) (o : OId) (li : Nat) (b : EId) (layer : Layer) (b
 /-- `init_object_env`: the new environment has the object view of its base -/
 theorem initObjectEnv_spec (s : St) (o : OId) (li : Nat) (b : EId) (hI : Inv s)
     (hpre : ∀ ob layer, s.objs[o]? = some ob → ob.layers[li]? = some layer →
-      InitOk (EnvOk s.envs) layer b (fun _ => True)) :
+      InitOk (EnvOk s.envs) layer b (fun _ => True))
+    (hli : ∀ ob, s.objs[o]? = some ob → ∃ layer, ob.layers[li]? = some layer) :
     ⦃fun st => ⌜st = s⌝⦄ initObjectEnv o li b
       ⦃Q s (fun r st => ∀ ob layer, s.objs[o]? = some ob → ob.layers[li]? = some layer →
         ∀ Γb, EnvOk st.envs b Γb → EnvOk st.envs r (objEnv Γb (layer.locals.map Prod.fst)))⦄ := by
@@ -107,13 +108,17 @@ theorem initObjectEnv_spec (s : St) (o : OId) (li : Nat) (b : EId) (hI : Inv s)
   mvcgen [h1, h2, h3]
   all_goals clear h1 h2 h3
   all_goals vcprep
-  · refine ⟨by assumption, by assumption, ?_⟩
-    intro ob layer h1 h2
-    grind
-  · sclose
-  · sclose
-  · exact hpre _ _ (by assumption) (by assumption)
-  all_goals sclose
+  all_goals first
+    | sclose
+    | (refine ⟨by assumption, by assumption, ?_⟩
+       intro ob layer h1 h2
+       grind)
+    | exact hpre _ _ (by assumption) (by assumption)
+    | (obtain ⟨Γb, hk, _⟩ := hpre _ _ (by assumption) (by assumption); exact hk.inRange)
+    | (exfalso
+       obtain ⟨layer, hl⟩ := hli _ (by assumption)
+       rename_i hn
+       exact hn layer hl)
 
 /-! ### `get_object_layer_env` -/
 
@@ -128,7 +133,7 @@ theorem layerEnv_close {s s1 : St} {o li : Nat} {ob ob1 : Obj} {layer : Layer} {
       ∀ Γb, EnvOk s1.envs b Γb → EnvOk s1.envs e (objEnv Γb (layer.locals.map Prod.fst)))
     (hI1 : Inv s1) :
     (∀ l ∈ ({ ob1 with layers := ob1.layers.set li { layer with env := some e } } : Obj).layers,
-      LayerOk (EnvOk s1.envs) l) ∧
+      LayerOk (EnvOk s1.envs) l ∧ LayerShape l) ∧
     (∀ old, s1.objs[o]? = some old →
       ({ ob1 with layers := ob1.layers.set li { layer with env := some e } } : Obj).layers.map staticLayer =
         old.layers.map staticLayer) ∧
@@ -147,8 +152,8 @@ theorem layerEnv_close {s s1 : St} {o li : Nat} {ob ob1 : Obj} {layer : Layer} {
   refine ⟨?_, ?_, ?_⟩
   · intro l hl'
     rcases List.mem_or_eq_of_mem_set hl' with h | rfl
-    · exact hI1.g.objs o ob1 hob1 l h
-    · exact Lnew
+    · exact ⟨hI1.g.objs o ob1 hob1 l h, hI1.shape o ob1 hob1 l h⟩
+    · exact ⟨Lnew, (hI.shape o ob hob layer (mem_of_getElem? hl)).setEnv _⟩
   · intro old hold
     rw [hob1] at hold; cases hold
     exact map_static_set hy1 (hy2 ▸ rfl)
@@ -159,7 +164,10 @@ theorem layerEnv_close {s s1 : St} {o li : Nat} {ob ob1 : Obj} {layer : Layer} {
     simp [hlt]
 
 /-- `get_object_layer_env`: afterwards the layer carries the environment that is returned -/
-theorem layerEnv_spec (s : St) (o : OId) (li : Nat) (hI : Inv s) :
+theorem layerEnv_spec (s : St) (o : OId) (li : Nat) (hI : Inv s)
+    (hli : ∀ ob, s.objs[o]? = some ob → ∃ layer, ob.layers[li]? = some layer)
+    (hbase : ∀ ob layer, s.objs[o]? = some ob → ob.layers[li]? = some layer → layer.env = none →
+      layer.baseEnv.isSome = true) :
     ⦃fun st => ⌜st = s⌝⦄ layerEnv o li
       ⦃Q s (fun r st => ∃ ob layer, st.objs[o]? = some ob ∧ ob.layers[li]? = some layer ∧ layer.env = some r)⦄ := by
   have h1 := getObj_spec
@@ -169,23 +177,34 @@ theorem layerEnv_spec (s : St) (o : OId) (li : Nat) (hI : Inv s) :
   mvcgen [h1, h3, h4]
   all_goals clear h1 h3 h4
   all_goals vcprep
-  · exact ⟨S.refl _, hI, _, _, by assumption, by assumption, by assumption⟩
-  · sclose
-  · rename_i ob layer ho hl hr
-    rw [hr] at ho; cases ho
-    rename_i r layer0 hl0 _ _ _ _
-    rw [hl0] at hl; cases hl
-    exact ((hI.g.objs o _ hr _ (mem_of_getElem? hl0)).1 _ (by assumption)).weaken (fun _ _ => trivial)
-  · sclose
-  · exact (layerEnv_close (by assumption) hI (by assumption) (by assumption) (by assumption) (by assumption)
-      (by assumption) (by assumption)).1 _ (by assumption)
-  · exact (layerEnv_close (by assumption) hI (by assumption) (by assumption) (by assumption) (by assumption)
-      (by assumption) (by assumption)).2.1 _ (by assumption)
-  · rename_i hset _ _ _ _ _
-    have hc := (layerEnv_close (by assumption) hI (by assumption) (by assumption) (by assumption) (by assumption)
-      (by assumption) (by assumption)).2.2
-    exact ⟨by schain, by assumption, _, _, hset _ (by assumption), hc, rfl⟩
-  all_goals sclose
+  all_goals first
+    | sclose
+    | exact ⟨S.refl _, hI, _, _, by assumption, by assumption, by assumption⟩
+    | (rename_i ob layer ho hl hr
+       rw [hr] at ho; cases ho
+       rename_i r layer0 hl0 _ _ _ _
+       rw [hl0] at hl; cases hl
+       exact ((hI.g.objs o _ hr _ (mem_of_getElem? hl0)).1 _ (by assumption)).weaken (fun _ _ => trivial))
+    | (rename_i ob ho hr
+       rw [hr] at ho; cases ho
+       exact ⟨_, by assumption⟩)
+    | exact (layerEnv_close (by assumption) hI (by assumption) (by assumption) (by assumption) (by assumption)
+        (by assumption) (by assumption)).1 _ (by assumption)
+    | exact (layerEnv_close (by assumption) hI (by assumption) (by assumption) (by assumption) (by assumption)
+        (by assumption) (by assumption)).2.1 _ (by assumption)
+    | (rename_i hset _ _ _ _ _
+       have hc := (layerEnv_close (by assumption) hI (by assumption) (by assumption) (by assumption) (by assumption)
+         (by assumption) (by assumption)).2.2
+       exact ⟨by schain, by assumption, _, _, hset _ (by assumption), hc, rfl⟩)
+    | (exfalso
+       obtain ⟨layer, hl⟩ := hli _ (by assumption)
+       rename_i hn
+       exact hn layer hl)
+    | (exfalso
+       have := hbase _ _ (by assumption) (by assumption) (by assumption)
+       rename_i hn
+       obtain ⟨b, hb⟩ := Option.isSome_iff_exists.1 this
+       exact hn b hb)
 
 /-! ### `find_object_field_thunk` -/
 
@@ -233,9 +252,10 @@ theorem fieldThunk_typing_layer {s s1 : St} {o li : Nat} {ob : Obj} {start : Nat
 /-- caching a thunk in a field keeps the object well scoped and its static part -/
 theorem fieldThunk_close {s2 : St} {o li : Nat} {ob2 : Obj} {layer2 : Layer}
     (hl2 : ob2.layers[li]? = some layer2) (hob2 : s2.objs[o]? = some ob2) (hI2 : Inv s2) (g : Field → Field)
-    (hg : ∀ f, staticField (g f) = staticField f) :
+    (hg : ∀ f, staticField (g f) = staticField f)
+    (hg2 : ∀ f, (g f).baseEnv = f.baseEnv ∧ (g f).expr = f.expr ∧ ((g f).thunk = none → f.thunk = none)) :
     (∀ l ∈ ({ ob2 with layers := ob2.layers.set li { layer2 with fields := layer2.fields.map g } } : Obj).layers,
-      LayerOk (EnvOk s2.envs) l) ∧
+      LayerOk (EnvOk s2.envs) l ∧ LayerShape l) ∧
     (∀ old, s2.objs[o]? = some old →
       ({ ob2 with layers := ob2.layers.set li { layer2 with fields := layer2.fields.map g } } : Obj).layers.map
         staticLayer = old.layers.map staticLayer) := by
@@ -248,8 +268,9 @@ theorem fieldThunk_close {s2 : St} {o li : Nat} {ob2 : Obj} {layer2 : Layer}
   refine ⟨?_, ?_⟩
   · intro l hl'
     rcases List.mem_or_eq_of_mem_set hl' with h | rfl
-    · exact hI2.g.objs o ob2 hob2 l h
-    · exact LayerOk_of_static hst (fun e he => he) (hI2.g.objs o ob2 hob2 layer2 (mem_of_getElem? hl2))
+    · exact ⟨hI2.g.objs o ob2 hob2 l h, hI2.shape o ob2 hob2 l h⟩
+    · exact ⟨LayerOk_of_static hst (fun e he => he) (hI2.g.objs o ob2 hob2 layer2 (mem_of_getElem? hl2)),
+        (hI2.shape o ob2 hob2 layer2 (mem_of_getElem? hl2)).mapFields g hg2⟩
   · intro old hold
     rw [hob2] at hold; cases hold
     exact map_static_set hl2 hst
@@ -257,16 +278,59 @@ theorem fieldThunk_close {s2 : St} {o li : Nat} {ob2 : Obj} {layer2 : Layer}
 theorem fieldThunk_close_mem {s2 : St} {o li : Nat} {ob2 : Obj} {layer2 : Layer} {g : Field → Field}
     {l : Layer} (hmem : l ∈ ob2.layers.set li { layer2 with fields := layer2.fields.map g })
     (hl2 : ob2.layers[li]? = some layer2) (hob2 : s2.objs[o]? = some ob2) (hI2 : Inv s2)
-    (hg : ∀ f, staticField (g f) = staticField f) : LayerOk (EnvOk s2.envs) l :=
-  (fieldThunk_close hl2 hob2 hI2 g hg).1 l hmem
+    (hg : ∀ f, staticField (g f) = staticField f)
+    (hg2 : ∀ f, (g f).baseEnv = f.baseEnv ∧ (g f).expr = f.expr ∧ ((g f).thunk = none → f.thunk = none)) :
+    LayerOk (EnvOk s2.envs) l ∧ LayerShape l :=
+  (fieldThunk_close hl2 hob2 hI2 g hg hg2).1 l hmem
 
 theorem fieldThunk_close_static {s2 : St} {o li : Nat} {ob2 : Obj} {layer2 : Layer}
     (hl2 : ob2.layers[li]? = some layer2) (hob2 : s2.objs[o]? = some ob2) (hI2 : Inv s2) {g : Field → Field}
     {old : Obj} (hold : s2.objs[o]? = some old)
     (hg : ∀ f, staticField (g f) = staticField f) :
     (ob2.layers.set li { layer2 with fields := layer2.fields.map g }).map staticLayer =
-      old.layers.map staticLayer :=
-  (fieldThunk_close hl2 hob2 hI2 g hg).2 old hold
+      old.layers.map staticLayer := by
+  have hst : staticLayer { layer2 with fields := layer2.fields.map g } = staticLayer layer2 := by
+    simp only [staticLayer, List.map_map]
+    congr 1
+    apply List.map_congr_left
+    intro f _
+    exact hg f
+  rw [hob2] at hold; cases hold
+  exact map_static_set hl2 hst
+
+/-- the layer index returned by `find_field` is valid, also in later stores -/
+theorem fieldThunk_li {s s2 : St} {o li : Nat} {ob ob2 : Obj} {start : Nat} {name : String} {f : Field}
+    (hfind : findField ob start name = some (li, f)) (hob : s.objs[o]? = some ob) (hS : S s s2)
+    (hob2 : s2.objs[o]? = some ob2) : ∃ layer, ob2.layers[li]? = some layer := by
+  obtain ⟨layer, hl, _⟩ := findField_some hfind
+  obtain ⟨ob', k1, k2⟩ := hS.objs o ob hob
+  rw [hob2] at k1; cases k1
+  obtain ⟨y', hy1, _⟩ := getElem?_of_map_static k2 hl
+  exact ⟨y', hy1⟩
+
+theorem fieldThunk_li_false {s s2 : St} {o li : Nat} {ob ob2 : Obj} {start : Nat} {name : String} {f : Field}
+    (hfind : findField ob start name = some (li, f))
+    (hn : ∀ layer, ob2.layers[li]? = some layer → False) (hob2 : s2.objs[o]? = some ob2)
+    (hob : s.objs[o]? = some ob) (hS : S s s2) : False := by
+  obtain ⟨l, hl⟩ := fieldThunk_li hfind hob hS hob2
+  exact hn l hl
+
+/-- a field without an environment of its own sits in a layer with a base environment -/
+theorem fieldThunk_base {s : St} {o li : Nat} {ob : Obj} {start : Nat} {name : String} {f : Field}
+    (hfind : findField ob start name = some (li, f)) (hob : s.objs[o]? = some ob) (hI : Inv s)
+    (hb : f.baseEnv = none) {ob' : Obj} {layer' : Layer} (h2 : ob'.layers[li]? = some layer')
+    (h1 : s.objs[o]? = some ob') : layer'.baseEnv.isSome = true := by
+  rw [hob] at h1; cases h1
+  obtain ⟨layer, hl, hf⟩ := findField_some hfind
+  obtain rfl : layer = layer' := by rw [hl] at h2; exact Option.some.inj h2
+  exact (hI.shape o ob hob layer (mem_of_getElem? hl)).fieldBase f hf hb
+
+/-- a field without thunk has an expression -/
+theorem fieldThunk_expr {s : St} {o li : Nat} {ob : Obj} {start : Nat} {name : String} {f : Field}
+    (hfind : findField ob start name = some (li, f)) (hob : s.objs[o]? = some ob) (hI : Inv s)
+    (ht : f.thunk = none) : ∃ ep, f.expr = some ep := by
+  obtain ⟨layer, hl, hf⟩ := findField_some hfind
+  exact Option.isSome_iff_exists.1 ((hI.shape o ob hob layer (mem_of_getElem? hl)).fieldExpr f hf ht)
 
 theorem fieldThunk_spec (s : St) (o : OId) (start : Nat) (name : String) (hI : Inv s) :
     ⦃fun st => ⌜st = s⌝⦄ fieldThunk o start name ⦃Q s (fun _ _ => True)⦄ := by
@@ -292,9 +356,18 @@ theorem fieldThunk_spec (s : St) (o : OId) (start : Nat) (name : String) (hI : I
           (by assumption) (by assumption) (by assumption) ⟨_, _, by assumption, by assumption, by assumption⟩).2
     | exact fieldThunk_close_mem (by assumption) (by assumption) (by assumption) (by assumption)
         (by intro f; simp only [staticField]; split <;> rfl)
+        (by intro f; split <;> simp)
     | exact fieldThunk_close_static (by assumption) (by assumption) (by assumption) (by assumption)
         (by intro f; simp only [staticField]; split <;> rfl)
     | (refine ⟨by schain, by assumption, trivial⟩)
+    | exact fieldThunk_li (by assumption) (by assumption) (S.refl _) (by assumption)
+    | exact fieldThunk_base (by assumption) (by assumption) hI (by assumption) (by assumption) (by assumption)
+    | (exfalso
+       obtain ⟨ep, hep⟩ := fieldThunk_expr (by assumption) (by assumption) hI (by assumption)
+       rename_i hn
+       exact hn ep.1 ep.2 hep)
+    | (exfalso
+       exact fieldThunk_li_false (by assumption) (by assumption) (by assumption) (by assumption) (by schain))
 
 /-! ### `add_object_field` -/
 
@@ -302,7 +375,7 @@ theorem fieldThunk_spec (s : St) (o : OId) (start : Nat) (name : String) (hI : I
     one, is the given one -/
 def AddedField (value : Expr) (baseEnv : Option EId) (layer r : Layer) : Prop :=
   ∃ f : Field, r = { layer with fields := layer.fields ++ [f] } ∧ f.baseEnv = baseEnv ∧
-    ∀ ep, f.expr = some ep → ep.1 = value
+    (∀ ep, f.expr = some ep → ep.1 = value) ∧ (f.thunk = none → f.expr.isSome = true)
 
 theorem addField_spec (s : St) (layer : Layer) (name : String) (plus : Bool) (vis : Vis) (value : Expr)
     (baseEnv : Option EId) (hI : Inv s) :
@@ -315,8 +388,8 @@ theorem addField_spec (s : St) (layer : Layer) (name : String) (plus : Bool) (vi
   all_goals vcprep
   all_goals first
     | sclose
-    | exact ⟨S.refl _, hI, _, rfl, rfl, by intro ep h; cases h; rfl⟩
-    | exact ⟨S.refl _, hI, _, rfl, rfl, by intro ep h; cases h⟩
-    | exact ⟨by schain, by assumption, _, rfl, rfl, by intro ep h; cases h⟩
+    | exact ⟨S.refl _, hI, _, rfl, rfl, (by intro ep h; cases h; rfl), fun _ => rfl⟩
+    | exact ⟨S.refl _, hI, _, rfl, rfl, (by intro ep h; cases h), fun h => by cases h⟩
+    | exact ⟨by schain, by assumption, _, rfl, rfl, (by intro ep h; cases h), fun h => by cases h⟩
 
 end Rsj.Eval.Scope
